@@ -2,6 +2,7 @@
 import NfpmModel.Bytes
 namespace Nfpm.Reviewed
 open Nfpm
+-- tabulated by running nfpm.ParseWithEnvMapping on a document in which every string leaf is a reference
 def expandedScalars : List Bytes := [b!"apk.signature.key_file", b!"apk.signature.key_id", b!"arch", b!"deb.fields.{}", b!"deb.signature.key_file", b!"deb.signature.key_id", b!"description", b!"homepage", b!"ipk.fields.{}", b!"maintainer", b!"name", b!"platform", b!"prerelease", b!"release", b!"rpm.packager", b!"rpm.signature.key_file", b!"rpm.signature.key_id", b!"vendor", b!"version"]
 def expandedSlices : List Bytes := [b!"conflicts", b!"deb.predepends", b!"depends", b!"ipk.predepends", b!"overrides.{}.conflicts", b!"overrides.{}.depends", b!"overrides.{}.provides", b!"overrides.{}.recommends", b!"overrides.{}.replaces", b!"overrides.{}.suggests", b!"provides", b!"recommends", b!"replaces", b!"suggests"]
 def expandedContents : List Bytes := [b!"contents", b!"overrides.{}.contents"]
